@@ -17,9 +17,10 @@ type retRec struct {
 
 type deferRec struct {
 	instr *ssa.Defer
-	guard Term
+	flag  string // state variable: this defer statement was executed
 	args  []Val
 	fnv   Val
+	seen  bool
 }
 
 type loopInfo struct {
@@ -42,7 +43,8 @@ type Frame struct {
 	top     bool
 	rets    []retRec
 	panics  []*State
-	defers  []deferRec
+	defers  []*deferRec
+	inDefer int
 	loops   map[*ssa.BasicBlock]*loopInfo
 	inLoop  int
 	binds   map[string]Val // parameter name -> value (for contracts)
@@ -177,6 +179,18 @@ func (fr *Frame) run(st0 *State) {
 			}
 			if !found {
 				vc.eng.errorf("%s: contract names loop %d but the function has %d loops (contract target changed)", vc.fnName(), ord, len(fr.loops))
+			}
+		}
+	}
+	// deferred calls: one state flag per defer statement
+	if fr.top {
+		for _, b := range fn.Blocks {
+			for _, in := range b.Instrs {
+				if d, ok := in.(*ssa.Defer); ok {
+					flag := vc.heapVar(fmt.Sprintf("DF_%d", len(fr.defers)), "Bool")
+					fr.defers = append(fr.defers, &deferRec{instr: d, flag: flag})
+					st0.heap[flag] = "false"
+				}
 			}
 		}
 	}
@@ -744,7 +758,18 @@ func (fr *Frame) oblige(st *State, kind, anchor string, goal Term, pos token.Pos
 	if fr.depth > 0 {
 		a = "[in " + shortFn(fr.fn) + "] " + anchor
 	}
+	if kind != "panic" && kind != "frame" {
+		fr.top0().panicIf(st, smtNot(goal), kind+" "+anchor)
+	}
 	fr.vc.oblige(st, kind, a, goal, pos)
+}
+
+// top0 returns the frame of the function under verification.
+func (fr *Frame) top0() *Frame {
+	if fr.vc.topFrame != nil {
+		return fr.vc.topFrame
+	}
+	return fr
 }
 
 func (fr *Frame) srcText(pos token.Pos, fallback string) string {
@@ -865,7 +890,17 @@ func (fr *Frame) step(st *State, instr ssa.Instruction) bool {
 		} else {
 			fnv = fr.val(x.Call.Value)
 		}
-		fr.defers = append(fr.defers, deferRec{instr: x, guard: st.reach, args: args, fnv: fnv})
+		found := false
+		for _, d := range fr.defers {
+			if d.instr == x {
+				d.args, d.fnv, d.seen = args, fnv, true
+				st.heap[d.flag] = "true"
+				found = true
+			}
+		}
+		if !found {
+			vc.unsupported("defer in inlined function")
+		}
 	case *ssa.RunDefers:
 		fr.runDefers(st, false)
 	case *ssa.Go:
@@ -1728,5 +1763,5 @@ func (fr *Frame) panicAt(st *State, x *ssa.Panic) {
 		anchor = "unreachable: panic(" + fr.exprText(mi.X) + ")"
 	}
 	fr.oblige(st, "panic", anchor, goal, x.Pos())
-	fr.panics = append(fr.panics, st)
+	fr.panicIf(st, "true", "panic at "+anchor)
 }
